@@ -133,10 +133,13 @@ where
                 return x;
             }
 
-            let t = (F::one() + F::one() / x).powf(self.s_minus_1);
+            // `t - 1` is computed via `ln_1p`/`exp_m1`: for large `x` the sum `1 + 1/x` rounds to
+            // one, `t - 1` would cancel to zero and every such proposal would be accepted.
+            let t_minus_1 = (self.s_minus_1 * (F::one() / x).ln_1p()).exp_m1();
+            let t = t_minus_1 + F::one();
 
             let v = rng.sample(StandardUniform);
-            if v * x * (t - F::one()) * self.b <= t * (self.b - F::one()) {
+            if v * x * t_minus_1 * self.b <= t * (self.b - F::one()) {
                 return x;
             }
         }
